@@ -45,6 +45,20 @@ func c12Store(c *vlib.Ctx) {
 			})
 		}
 	}
+	// long histories of accepted enqueues each followed by a refused one
+	for _, depth := range []int{1, 3, 7} {
+		sc := vlib.StoreCfg{MaxDepth: depth, DropPolicy: "drop_oldest"}
+		n := c.N(1300, 4200)
+		for _, be := range []string{"memory", "sqlite"} {
+			if be == "sqlite" && (depth != 3 || !c.Thorough()) {
+				continue
+			}
+			storecheck.RunSequence(c, vlib.Derive(c.Seed, "C12long", be, depth), storecheck.RunCfg{
+				Backends: []string{be}, Store: sc, Script: storecheck.LongRefusalScript(n, depth), Label: fmt.Sprintf("C12/long-refusals/%s/depth%d", be, depth),
+				Props: map[string]bool{"C12": true}, Remap: remap, PredictAdmission: true,
+			})
+		}
+	}
 	seqs := c.N(14, 300)
 	for _, be := range []string{"memory", "sqlite"} {
 		all := cfgs
@@ -67,7 +81,7 @@ func c12Store(c *vlib.Ctx) {
 
 // C12: admission limits (depth, drop policy, size limits, rate limit).
 func C12(c *vlib.Ctx) {
-	c.Rule("store part: generated enqueue-heavy sequences on memory and SQLite for max_depth 1..8 x reject/drop_oldest (+ lowered memory-pressure limits on memory); an independent admission model predicts admit/refuse and the exact evicted set from the snapshot before each enqueue, and every refusal must leave the snapshot unchanged; racing producers: rounds of fill / one refusal / k slots freed by ack, dead-letter or cancel / 4-12 producers released together (single and batch enqueues), at every quiescent point active <= max_depth, under reject at most k admitted, refusals are queue_full and store nothing; reload part: queue_limits edited (policy flipped, depth raised / lowered / introduced / removed) and reloaded through the production wiring - ten requests into the empty queue must be answered and kept as after a fresh start of the configuration the process reports as running. ingress part: body/header sizes around max_body/max_headers through the production ingress handler and arrival sequences through the production token-bucket limiter under a virtual clock. distinct_nontrivial = distinct (backend, operation, result class, observed transitions) tuples plus distinct limiter/size classes.")
+	c.Rule("store part: generated enqueue-heavy sequences on memory and SQLite for max_depth 1..8 x reject/drop_oldest (+ lowered memory-pressure limits on memory); an independent admission model predicts admit/refuse and the exact evicted set from the snapshot before each enqueue, and every refusal must leave the snapshot unchanged; long histories (1300+ accepted enqueues on a full drop_oldest queue, each followed by a duplicate-id or cannot-fit enqueue that is refused after the store has looked for victims); racing producers: rounds of fill / one refusal / k slots freed by ack, dead-letter or cancel / 4-12 producers released together (single and batch enqueues), at every quiescent point active <= max_depth, under reject at most k admitted, refusals are queue_full and store nothing; reload part: queue_limits edited (policy flipped, depth raised / lowered / introduced / removed) and reloaded through the production wiring - ten requests into the empty queue must be answered and kept as after a fresh start of the configuration the process reports as running. ingress part: body/header sizes around max_body/max_headers through the production ingress handler and arrival sequences through the production token-bucket limiter under a virtual clock. distinct_nontrivial = distinct (backend, operation, result class, observed transitions) tuples plus distinct limiter/size classes.")
 	c.Assume("received_at strictly increasing in enqueue order (the generator never sets out-of-order values here), retention off, so 'oldest' and the active count are unambiguous")
 	c.Assume("states with active > max_depth (after operator requeue/resume) are skipped as the quantifier says")
 	if os.Getenv("VERIF_PART") == "concurrent" {
